@@ -14,7 +14,7 @@
 (* the active-list update in ActiveNodes.tla (it appears here as one       *)
 (* coarse step).                                                           *)
 (***************************************************************************)
-EXTENDS ClusterProps, TLC
+EXTENDS ClusterProps, SwitchSkel, TLC
 
 CONSTANTS Host,        \* HA hosts
           Txn,         \* universe of transactions
@@ -505,6 +505,9 @@ TypeOK == /\ pc \in {"idle", "ro", "ro_done", "stopio", "quorum", "positions", "
                      "cu_start", "catchup", "resnap", "online_new", "change", "recmark", "stop_new", "reset_new",
                      "update_active", "writable", "set_master", "finish"}
           /\ zactive \subseteq Host /\ zrecovery \subseteq Host
+
+\* the model implements the control skeleton the real activations are validated against (SwitchSkel.tla)
+SkelOrder == [][pc' # pc \/ pc \in {"ro", "stopio", "change"} => Edge(pc, pc')]_pc
 
 \* C01: every promotion was backed by a frozen quorum holding nothing the promoted node lacks
 C01_PromotionSafe == ~viol
